@@ -167,6 +167,9 @@ def r4(ctx, F, rule, sfx):
     wh = where(c)
     ctx.check(rule, 'reported-index-is-generator-id' + sfx, repr(ident) == 'g.id', repr(ident), 'g.id()', wh, key_extra='id')
 
+    norm2 = s[0] * s[0] + s[1] * s[1] + s[2] * s[2]
+    magnitude = []
+
     def classify(leaf):
         if leaf.op == 'cmp' and leaf.args[0] in ('==', '!='):
             a, b = leaf.args[1], leaf.args[2]
@@ -175,19 +178,31 @@ def r4(ctx, F, rule, sfx):
                     for i in range(3):
                         if x == s[i]:
                             return ('Z%d' % i, leaf.args[0] == '==')
+        # a comparison of the size of the shift with a positive constant: decided when the shift is zero, otherwise it can
+        # go either way (the shift may be arbitrarily small in a small box): modelled by the free atom MAG ("the shift is large")
+        if leaf.op == 'cmp' and leaf.args[0] in ('<', '<=') and isinstance(leaf.args[1], RF) and isinstance(leaf.args[2], RF):
+            for lhs, rhs, large_if in ((leaf.args[1], leaf.args[2], True), (leaf.args[2], leaf.args[1], False)):
+                if lhs.is_const() and lhs.const_value() > 0 and rhs in (norm2, nf.fn_sqrt(norm2)):
+                    magnitude.append(leaf)
+                    return ('MAG', large_if)       # c <(=) |s|^2  is "large";  |s|^2 <(=) c is "not large"
         return None
-    T = dtab.Table(['Z0', 'Z1', 'Z2'], classify)
+
+    def feasible(env):
+        return not (env['Z0'] and env['Z1'] and env['Z2'] and env['MAG'])
+    T = dtab.Table(['Z0', 'Z1', 'Z2', 'MAG'], classify, constraint=feasible)
     tab = T.tabulate(sh)
     for env in T.rows():
         row = tuple(env[n] for n in T.names)
         got = tab[row]
-        if all(row):
+        if all(row[:3]):
             ok = isinstance(got, I.St) and got.variant == 'None'
             want = 'None'
         else:
             ok = isinstance(got, I.St) and got.variant == 'Some' and [as_rf(x) for x in c3(got.fields[0])] == [-x for x in s]
             want = 'Some(-shift)'
-        ctx.check(rule, 'shift[%s]%s' % (dtab.fmt_env(env), sfx), ok, repr(got)[:100], want, wh, key_extra=dtab.fmt_env(env))
+        if not magnitude and env['MAG']:
+            continue
+        ctx.check(rule, 'shift[%s]%s' % (dtab.fmt_env({k: v_ for k, v_ in env.items() if k != 'MAG' or magnitude}), sfx), ok, repr(got)[:100], want, wh, key_extra=dtab.fmt_env(env))
 
 
 def r5(ctx, F, rule, sfx):
